@@ -48,6 +48,22 @@ Theorem C22_valid_reduction_total :
   forall mesh red, valid_reductionb cls beqb mesh red = true -> total red = length mesh.
 Proof. exact valid_reduction_total. Qed.
 
+(* the same for reductions that list several representatives of one class (an orbit split into parts, each counted
+   separately): all counts positive and, after merging equal classes, a valid reduction *)
+Theorem C22_valid_reduction2_integrates :
+  forall (A B : Type) (cls : A -> B) (beqb : B -> B -> bool),
+    (forall a b, beqb a b = true <-> a = b) ->
+  forall (K : ordring) (f : A -> K) mesh red,
+    (forall a b, cls a = cls b -> f a = f b) ->
+    valid_reduction2b cls beqb mesh red = true -> wsum f red = sumf f mesh.
+Proof. exact valid_reduction2_integrates. Qed.
+
+Theorem C22_valid_reduction2_total :
+  forall (A B : Type) (cls : A -> B) (beqb : B -> B -> bool),
+    (forall a b, beqb a b = true <-> a = b) ->
+  forall mesh red, valid_reduction2b cls beqb mesh red = true -> total red = length mesh.
+Proof. exact valid_reduction2_total. Qed.
+
 (* with weights wt c = c/N (any wt with wt c * N = c):  N * weighted sum = full-mesh sum, i.e. the
    weighted sum is the full-mesh mean *)
 Theorem C22_reduction_mean :
@@ -92,6 +108,10 @@ Goal True. idtac "ASSUMPTIONS-OF C22_valid_reduction_integrates". Abort.
 Print Assumptions C22_valid_reduction_integrates.
 Goal True. idtac "ASSUMPTIONS-OF C22_valid_reduction_total". Abort.
 Print Assumptions C22_valid_reduction_total.
+Goal True. idtac "ASSUMPTIONS-OF C22_valid_reduction2_integrates". Abort.
+Print Assumptions C22_valid_reduction2_integrates.
+Goal True. idtac "ASSUMPTIONS-OF C22_valid_reduction2_total". Abort.
+Print Assumptions C22_valid_reduction2_total.
 Goal True. idtac "ASSUMPTIONS-OF C22_reduction_mean". Abort.
 Print Assumptions C22_reduction_mean.
 Goal True. idtac "ASSUMPTIONS-OF C22_inBZb_sound". Abort.
